@@ -79,7 +79,12 @@ pub fn parse_function_signature(
         let param = match template_param {
             ast::TemplateParam::Type(ty_param) => {
                 if ty_param.default.is_some() {
-                    todo!("default template arguments not implemented");
+                    return Err(TyperError::DefaultTemplateArgumentNotSupported(
+                        match &ty_param.name {
+                            Some(name) => name.location,
+                            None => fd.name.location,
+                        },
+                    ));
                 }
                 let id = context
                     .module
@@ -92,7 +97,12 @@ pub fn parse_function_signature(
             }
             ast::TemplateParam::Value(ty_param) => {
                 if ty_param.default.is_some() {
-                    todo!("default template arguments not implemented");
+                    return Err(TyperError::DefaultTemplateArgumentNotSupported(
+                        match &ty_param.name {
+                            Some(name) => name.location,
+                            None => fd.name.location,
+                        },
+                    ));
                 }
                 // TODO: Ensure allowed type modifiers are as expected
                 let ty = parse_type_for_usage(&ty_param.value_type, TypePosition::Free, context)?;
